@@ -56,6 +56,9 @@ theorem decode_step (st cp byte : UInt32) (hs : st.toNat < 9) (hb : byte.toNat <
   have ht := table st.toNat hs byte.toNat hb
   have ht1 := ht.1
   have ht2 := ht.2
+  -- the table fact for *any* index term that equals 256 + 16·state + class (`256 + s*16 + t`, `(s << 4) + t + 256`, …)
+  have ht2' : ∀ i, i = 256 + st.toNat * 16 + (utf8d byte.toNat).toNat → (utf8d i).toNat = delta st.toNat byte.toNat := by
+    intro i hi; rw [hi]; exact ht2
   -- independent of the spelling of the generated function (conditional expression or if/else for `*codep`, `utf8d[i]` or
   -- `*(utf8d + i)`, explicit casts): every `if` is split, and the index expression, whatever its text, is pushed to `Nat`
   -- where it denotes 256 + 16·state + class
@@ -64,8 +67,8 @@ theorem decode_step (st cp byte : UInt32) (hs : st.toNat < 9) (hb : byte.toNat <
   repeat' split
   all_goals (refine ⟨?_, ?_, ?_⟩)
   all_goals (try rfl)
-  all_goals (simp [UInt32.toNat_add, UInt32.toNat_mul] <;> bits_to_arith)
-  all_goals (first | exact ht2 | (simpa using ht2) | (cnorm; omega))
+  all_goals (simp [UInt32.toNat_add, UInt32.toNat_mul, UInt32.toNat_shiftLeft, Nat.shiftLeft_eq] <;> bits_to_arith)
+  all_goals (first | exact ht2 | (apply ht2'; omega) | (simpa using ht2) | (cnorm; omega))
 
 /-- a run of the automaton over a byte list, counting passages through the accept state -/
 def runD : List Nat → Nat → Nat → Option Nat
@@ -100,38 +103,71 @@ theorem u32_eq_one_iff (x : UInt32) : (x == 1) = true ↔ x.toNat = 1 := by
   · intro h; have : x = 1 := UInt32.toNat_inj.mp (by simpa using h)
     subst this; rfl
 
-/-- the generated loop is a run of `delta` -/
-theorem loop_run (src : Array UInt8) (off : Nat) (len : UInt64) (hsz : off + len.toNat ≤ src.size) :
-    ∀ (k fuel : Nat) (pos : UInt64) (st cp res : UInt32) (count : UInt64),
+/-! ### The counting loop
+
+The generated loop function `_cbor_unicode_codepoint_count.loop0` takes the loop-carried C variables as separate arguments
+and returns them as a tuple, so its *signature* changes when a dead variable stops being carried (e.g. `res` declared inside
+the loop body).  To keep that out of the real proof, the argument is split in three:
+
+1. `refLoop` / `refCount`: a hand-written reference with a fixed signature; `refLoop_run` (the induction against the
+   automaton `runD`) is proved about it once and for all;
+2. `count_eq_ref`: the generated function **equals** the reference (value and side conditions).  Its statement does not
+   mention the loop function; its proof contains one tiny *signature adapter* per known signature of `loop0` (which
+   argument / tuple position is state, pos, count), proved by the structural tactic `bridge_tac` (unfold one step of both
+   loops, split every `if`, compare guards over `Nat`, rewrite recursive calls with the induction hypothesis) — independent
+   of the order of the tests, of the orientation of `==`, of `count++` vs `count += 1`, of where `res` is declared;
+3. `Props/C16` uses only `count_eq_ref` and `refLoop_run`.
+-/
+
+/-- hand-written reference loop: same algorithm as the C loop, carried values (codepoint, state, pos, count), exit code 1 for
+the `goto error` inside the loop, and the conjunction of the per-iteration side conditions as third component -/
+def refLoop (src : Array UInt8) (off : Nat) (len : UInt64) :
+    Nat → UInt32 → UInt32 → UInt64 → UInt64 → (UInt32 × UInt32 × UInt64 × UInt64) × Nat × Bool
+  | 0, cp, st, pos, count => ((cp, st, pos, count), 0, false)
+  | fuel+1, cp, st, pos, count =>
+    if pos.toNat < len.toNat then
+      let d := _cbor_unicode_decode st cp (src.getD (off + pos.toNat) 0).toUInt32
+      let ok := decide (off + pos.toNat < src.size) && _cbor_unicode_decode.ok st cp (src.getD (off + pos.toNat) 0).toUInt32
+      if d.1.toNat = 0 then
+        let r := refLoop src off len fuel d.2.2 d.2.1 (pos + 1) (count + 1)
+        (r.1, r.2.1, r.2.2 && ok)
+      else if d.1.toNat = 1 then ((d.2.2, d.2.1, pos, count), 1, ok)
+      else
+        let r := refLoop src off len fuel d.2.2 d.2.1 (pos + 1) count
+        (r.1, r.2.1, r.2.2 && ok)
+    else ((cp, st, pos, count), 0, true)
+
+theorem refLoop_run (src : Array UInt8) (off : Nat) (len : UInt64) (hsz : off + len.toNat ≤ src.size) :
+    ∀ (k fuel : Nat) (pos : UInt64) (st cp : UInt32) (count : UInt64),
       pos.toNat + k = len.toNat → k < fuel → st.toNat < 9 → count.toNat + k < 2 ^ 64 →
-      let r := _cbor_unicode_codepoint_count.loop0 fuel src off len cp st res pos count
+      let r := refLoop src off len fuel cp st pos count
       r.2.2 = true ∧
       (match runD (bl src off k pos.toNat) st.toNat count.toNat with
-       | some c => r.2.1 = 0 ∧ r.1.2.2.1 = 0 ∧ r.1.2.2.2.2.2.toNat = c
-       | none => r.2.1 = 1 ∨ (r.2.1 = 0 ∧ r.1.2.2.1 ≠ 0)) := by
+       | some c => r.2.1 = 0 ∧ r.1.2.1 = 0 ∧ r.1.2.2.2.toNat = c
+       | none => r.2.1 = 1 ∨ (r.2.1 = 0 ∧ r.1.2.1 ≠ 0)) := by
   intro k
   induction k with
   | zero =>
-    intro fuel pos st cp res count hp hf hs hc
+    intro fuel pos st cp count hp hf hs hc
     obtain ⟨f, rfl⟩ : ∃ f, fuel = f + 1 := ⟨fuel - 1, by omega⟩
-    have hnot : ¬ (pos < len) := fun h => by have := UInt64.lt_iff_toNat_lt.mp h; omega
-    simp only [_cbor_unicode_codepoint_count.loop0, hnot, decide_false, Bool.false_eq_true, if_false, bl, runD]
-    refine ⟨by simp, ?_⟩
+    have hnot : ¬ (pos.toNat < len.toNat) := by omega
+    simp only [refLoop, hnot, if_false, bl, runD]
+    refine ⟨trivial, ?_⟩
     by_cases h0 : st.toNat = 0
     · have : st = 0 := UInt32.toNat_inj.mp (by simpa using h0)
       simp [h0, this]
     · have : st ≠ 0 := fun h => h0 (by rw [h]; rfl)
       simp [h0, this]
   | succ k ih =>
-    intro fuel pos st cp res count hp hf hs hc
+    intro fuel pos st cp count hp hf hs hc
     obtain ⟨f, rfl⟩ : ∃ f, fuel = f + 1 := ⟨fuel - 1, by omega⟩
-    have hlt : pos < len := UInt64.lt_iff_toNat_lt.mpr (by omega)
+    have hlt : pos.toNat < len.toNat := by omega
     have hpos1 : (pos + 1).toNat = pos.toNat + 1 := by
       rw [UInt64.toNat_add]; have := len.toNat_lt; simp; omega
     have hcnt1 : (count + 1).toNat = count.toNat + 1 := by
       rw [UInt64.toNat_add]; simp; omega
     have hin : off + pos.toNat < src.size := by omega
-    simp only [_cbor_unicode_codepoint_count.loop0, hlt, decide_true, if_true, bl, runD]
+    simp only [refLoop, hlt, if_true, bl, runD]
     generalize src.getD (off + pos.toNat) 0 = B
     have hb : (B.toUInt32).toNat = B.toNat := by simp
     have hb256 : (B.toUInt32).toNat < 256 := by rw [hb]; exact UInt8.toNat_lt _
@@ -140,34 +176,75 @@ theorem loop_run (src : Array UInt8) (off : Nat) (len : UInt64) (hsz : off + len
     rw [d2]
     generalize hres : (_cbor_unicode_decode st cp B.toUInt32).1 = rs at d1
     have hdl := delta_lt st.toNat B.toNat
-    by_cases h0 : (rs == 0) = true
-    · have h0n := (u32_eq_zero_iff rs).mp h0
-      have hrs0 : rs = 0 := by simpa using h0
+    rw [← d1]
+    by_cases h0 : rs.toNat = 0
+    · have hrs0 : rs = 0 := UInt32.toNat_inj.mp (by simpa using h0)
       simp only [h0, if_true]
-      rw [← d1, h0n]
-      simp only [if_true]
-      have := ih f (pos + 1) rs (_cbor_unicode_decode st cp B.toUInt32).2.2 rs (count + 1) (by omega) (by omega) (by omega) (by omega)
+      have := ih f (pos + 1) rs (_cbor_unicode_decode st cp B.toUInt32).2.2 (count + 1) (by omega) (by omega) (by omega) (by omega)
       simp only at this
-      rw [hpos1, hcnt1, h0n] at this
+      rw [hpos1, hcnt1, h0] at this
       obtain ⟨a1, a2⟩ := this
-      refine ⟨by simp [a1, hin, d3], ?_⟩
-      exact a2
-    · have h0n : rs.toNat ≠ 0 := fun h => h0 ((u32_eq_zero_iff rs).mpr h)
-      simp only [h0, Bool.false_eq_true, if_false]
-      rw [← d1]
-      simp only [h0n, if_false]
-      by_cases h1 : (rs == 1) = true
-      · have h1n := (u32_eq_one_iff rs).mp h1
-        simp only [h1, if_true, h1n]
-        refine ⟨by simp [hin, d3], Or.inl (by simp)⟩
-      · have h1n : rs.toNat ≠ 1 := fun h => h1 ((u32_eq_one_iff rs).mpr h)
-        simp only [h1, Bool.false_eq_true, if_false, h1n]
-        have := ih f (pos + 1) rs (_cbor_unicode_decode st cp B.toUInt32).2.2 rs count (by omega) (by omega) (by omega) (by omega)
+      exact ⟨by simp [a1, hin, d3], a2⟩
+    · simp only [h0, if_false]
+      by_cases h1 : rs.toNat = 1
+      · simp only [h1, if_true]
+        exact ⟨by simp [hin, d3], Or.inl (by simp)⟩
+      · simp only [h1, if_false]
+        have := ih f (pos + 1) rs (_cbor_unicode_decode st cp B.toUInt32).2.2 count (by omega) (by omega) (by omega) (by omega)
         simp only at this
         rw [hpos1] at this
         obtain ⟨a1, a2⟩ := this
-        refine ⟨by simp [a1, hin, d3], ?_⟩
-        exact a2
+        exact ⟨by simp [a1, hin, d3], a2⟩
+
+/-- hand-written reference for the whole function -/
+def refCount (src : Array UInt8) (off : Nat) (len : UInt64) : UInt64 × S__cbor_unicode_status :=
+  let q := refLoop src off len (len.toNat + 1) 0 0 0 0
+  if q.2.1 = 1 ∨ q.1.2.1.toNat ≠ 0 then (0, { status := 1, location := q.1.2.2.1 })
+  else (q.1.2.2.2, { status := 0, location := 0 })
+
+/-- proof of a signature adapter: structural only (one step of each loop unfolded, every `if` split, guards over `Nat`,
+recursive calls rewritten with the induction hypothesis) -/
+macro "bridge_tac" : tactic => `(tactic| (
+  intro fuel
+  induction fuel with
+  | zero => intros; simp [_cbor_unicode_codepoint_count.loop0, refLoop]
+  | succ f ih =>
+    intros
+    rw [_cbor_unicode_codepoint_count.loop0, refLoop]
+    simp only []
+    repeat' split
+    all_goals cnorm
+    all_goals (try omega)
+    all_goals (simp [ih, Bool.and_comm, Bool.and_left_comm, Bool.and_assoc])))
+
+/-- end of an adapter: the generated function is the reference function -/
+macro "adapter_fin" : tactic => `(tactic| (
+  unfold _cbor_unicode_codepoint_count _cbor_unicode_codepoint_count.ok refCount
+  simp only [*]
+  repeat' split
+  all_goals cnorm
+  all_goals (first | (exfalso; omega) | (simp; done))))
+
+theorem count_eq_ref (src : Array UInt8) (off : Nat) (len : UInt64) (st0 : S__cbor_unicode_status) :
+    _cbor_unicode_codepoint_count src off len st0 = refCount src off len ∧
+    _cbor_unicode_codepoint_count.ok src off len st0 = (refLoop src off len (len.toNat + 1) 0 0 0 0).2.2 := by
+  first
+  | (-- signature A: carried (source_length, codepoint, state, res, pos, count)
+     have bridge : ∀ (fuel : Nat) (cp st res : UInt32) (pos count : UInt64),
+         (fun r q => r.2.1 = q.2.1 ∧ r.2.2 = q.2.2 ∧ r.1.2.2.1 = q.1.2.1 ∧ r.1.2.2.2.2.1 = q.1.2.2.1 ∧ r.1.2.2.2.2.2 = q.1.2.2.2)
+           (_cbor_unicode_codepoint_count.loop0 fuel src off len cp st res pos count)
+           (refLoop src off len fuel cp st pos count) := by
+       bridge_tac
+     obtain ⟨b1, b2, b3, b4, b5⟩ := bridge (len.toNat + 1) 0 0 0 0 0
+     adapter_fin)
+  | (-- signature B: carried (source_length, codepoint, state, pos, count)
+     have bridge : ∀ (fuel : Nat) (cp st : UInt32) (pos count : UInt64),
+         (fun r q => r.2.1 = q.2.1 ∧ r.2.2 = q.2.2 ∧ r.1.2.2.1 = q.1.2.1 ∧ r.1.2.2.2.1 = q.1.2.2.1 ∧ r.1.2.2.2.2 = q.1.2.2.2)
+           (_cbor_unicode_codepoint_count.loop0 fuel src off len cp st pos count)
+           (refLoop src off len fuel cp st pos count) := by
+       bridge_tac
+     obtain ⟨b1, b2, b3, b4, b5⟩ := bridge (len.toNat + 1) 0 0 0 0
+     adapter_fin)
 
 end Lemmas.Utf8
 
